@@ -346,10 +346,10 @@ def edc_models() -> list[tuple]:
     return out
 
 
-def wildcard_models(v11: bool) -> list[tuple]:
+def wildcard_models(v11: bool, tokens: bool = True) -> list[tuple]:
     """every pair of leaves from {a, the substitution head h and its members, wildcard specs} in the two-item
     sequence / choice shapes"""
-    specs = [s for s, (_, need) in WC_SPECS.items() if v11 or not need]
+    specs = [s for s, (_, need) in WC_SPECS.items() if (v11 or not need) and (tokens or s not in TOKEN_SPECS)]
     pool = [('e', 'a'), ('e', 'h'), ('e', 's'), ('e', 's2'), ('e', 'd')] + [('a', s) for s in specs]
     out = []
     for x, y in itertools.product(pool, repeat=2):
